@@ -144,7 +144,23 @@ def main():
         return replay(ctx, args.replay)
 
     # 2. proof status
-    ps = proof_status(pid, getattr(mod, 'EXTRA_PROOF_FILES', ()))
+    gen_status = {}
+    gs = os.path.join(COQ, 'Gen', 'STATUS.json')
+    if os.path.exists(gs):
+        gen_status = json.load(open(gs))
+    ctx.gen_status = gen_status
+    extra = list(getattr(mod, 'EXTRA_PROOF_FILES', ()))
+    for unit, tie_file in getattr(mod, 'GEN_TIES', {}).items():
+        st = gen_status.get(unit, {})
+        if st.get('status') == 'ok':
+            extra.append(tie_file)
+        else:
+            # the translator does not accept the current source: fall back to the dense-grid
+            # correspondence for this unit (DESIGN.md 2.1); the GenTie lemmas are not obligations then
+            ctx.fallback.add(unit)
+            ctx.notes.append('translator rejected %s (%s): tie = correspondence-fallback on a dense grid'
+                             % (unit, json.dumps(st)[:300]))
+    ps = proof_status(pid, extra)
     lint_bad = lint()
     ctx.ps = ps
     if lint_bad:
@@ -152,15 +168,6 @@ def main():
     for n in ps['failed']:
         ctx.broken('theorem:%s' % n, 'theorem %s no longer checks (or depends on a non-allowed axiom)\n%s'
                    % (n, ps['log'][-1500:]))
-    gen_status = {}
-    gs = os.path.join(COQ, 'Gen', 'STATUS.json')
-    if os.path.exists(gs):
-        gen_status = json.load(open(gs))
-    ctx.gen_status = gen_status
-    for unit in getattr(mod, 'GEN_UNITS', ()):
-        st = gen_status.get(unit, {})
-        if st.get('status') != 'ok':
-            ctx.broken('translator:%s' % unit, 'translator tie for %s: %s' % (unit, st))
 
     # 3. exploration
     widen = 1
@@ -191,6 +198,7 @@ class Ctx:
         self.disagreements = 0
         self.checker_false = 0
         self.exhaustive = False
+        self.fallback = set()
         self.known = [k for k in load_known() if k.get('property') == pid and k.get('status') == 'known']
         self.rng = common.mk_rng(seed, pid)
 
@@ -293,7 +301,7 @@ class Ctx:
             trusted_base=getattr(self.mod, 'TRUSTED', []) + TRUSTED_COMMON,
             theorems=ps['theorems'], failed_theorems=ps['failed'],
             assumptions_printed=ps['assumptions'],
-            tie=getattr(self.mod, 'TIE', {}), translator_status=self.gen_status,
+            tie=getattr(self.mod, 'TIE', {}), translator_status=self.gen_status, translator_fallback=sorted(self.fallback),
             evaluations=self.evaluations, distinct_nontrivial=len(self.nontrivial),
             rule=getattr(self.mod, 'RULE', ''), samples=self.samples[:3] or [dict(note='no sample')],
             input_distribution=dict(self.dist), streams=self.streams,
